@@ -83,6 +83,11 @@ pub struct HuffmanBlobStore<S: BlobStore> {
 }
 
 impl<S: BlobStore> HuffmanBlobStore<S> {
+    /// Record framing in the inner store: flag byte, then the record bytes unchanged
+    const FLAG_RAW: u8 = 0;
+    /// Record framing in the inner store: flag byte, original length (u32 LE), Huffman-coded bits
+    const FLAG_HUFFMAN: u8 = 1;
+
     /// Create new Huffman blob store
     pub fn new(inner: S) -> Self {
         Self {
@@ -158,29 +163,68 @@ impl<S: BlobStore> HuffmanBlobStore<S> {
 
         Ok(decompressed)
     }
+
+    /// Frame a record that is stored without Huffman coding
+    fn frame_raw(data: &[u8]) -> Vec<u8> {
+        let mut framed = Vec::with_capacity(data.len() + 1);
+        framed.push(Self::FLAG_RAW);
+        framed.extend_from_slice(data);
+        framed
+    }
+
+    /// Split a framed record into (original length, Some(coded bits)) for Huffman-coded
+    /// records or (original length, None) for raw ones
+    fn parse_frame(stored: &[u8]) -> Result<(usize, Option<&[u8]>)> {
+        match stored.split_first() {
+            Some((&flag, payload)) if flag == Self::FLAG_RAW => Ok((payload.len(), None)),
+            Some((&flag, rest)) if flag == Self::FLAG_HUFFMAN && rest.len() >= 4 => {
+                let original_length =
+                    u32::from_le_bytes([rest[0], rest[1], rest[2], rest[3]]) as usize;
+                Ok((original_length, Some(&rest[4..])))
+            }
+            _ => Err(ZiporaError::invalid_data(
+                "Record was not written by HuffmanBlobStore (bad framing)",
+            )),
+        }
+    }
 }
 
 impl<S: BlobStore> BlobStore for HuffmanBlobStore<S> {
     fn get(&self, id: crate::RecordId) -> Result<Vec<u8>> {
-        // For now, delegate to inner store (would need metadata for decompression)
-        self.inner.get(id)
+        let stored = self.inner.get(id)?;
+
+        match Self::parse_frame(&stored)? {
+            (_, None) => Ok(stored[1..].to_vec()),
+            (original_length, Some(compressed)) => {
+                let tree = self
+                    .tree
+                    .as_ref()
+                    .ok_or_else(|| ZiporaError::invalid_data("Huffman tree not built"))?;
+                HuffmanDecoder::new(tree.clone()).decode(compressed, original_length)
+            }
+        }
     }
 
     fn put(&mut self, data: &[u8]) -> Result<crate::RecordId> {
-        if self.encoder.is_some() && !data.is_empty() {
+        if self.encoder.is_some() && !data.is_empty() && data.len() <= u32::MAX as usize {
             match self.compress_data(data) {
                 Ok(compressed) => {
-                    let id = self.inner.put(&compressed)?;
+                    let mut framed = Vec::with_capacity(compressed.len() + 5);
+                    framed.push(Self::FLAG_HUFFMAN);
+                    framed.extend_from_slice(&(data.len() as u32).to_le_bytes());
+                    framed.extend_from_slice(&compressed);
+
+                    let id = self.inner.put(&framed)?;
                     self.stats.blob_stats.put_count += 1;
                     Ok(id)
                 }
                 Err(_) => {
                     // Fall back to uncompressed
-                    self.inner.put(data)
+                    self.inner.put(&Self::frame_raw(data))
                 }
             }
         } else {
-            self.inner.put(data)
+            self.inner.put(&Self::frame_raw(data))
         }
     }
 
@@ -193,7 +237,13 @@ impl<S: BlobStore> BlobStore for HuffmanBlobStore<S> {
     }
 
     fn size(&self, id: crate::RecordId) -> Result<Option<usize>> {
-        self.inner.size(id)
+        // Report the length of the record as it was put, not of its framed/coded form
+        if self.inner.size(id)?.is_none() {
+            return Ok(None);
+        }
+        let stored = self.inner.get(id)?;
+        let (original_length, _) = Self::parse_frame(&stored)?;
+        Ok(Some(original_length))
     }
 
     fn len(&self) -> usize {
